@@ -188,6 +188,8 @@ def dispatch (ca : Ca) (child : Handle) (c : ChildRec) : Payload → Ca × Optio
                    certs := removeKey ca.certs key,
                    suspendedCerts := removeSusp ca.suspendedCerts key cls },
          some (.revokeResponse cls key))
+      -- certauth.rs:1476-1487 (fix 7be8c4c6): a key this CA revoked itself - confirmed, nothing done
+      else if c.revoked.contains key then (ca, some (.revokeResponse cls key))
       else (ca, none)
   | _ => (ca, none)
 
